@@ -677,6 +677,25 @@ Definition rectify_flat (fixed : bool) (f : file) : list Z :=
               ++ oflat (f_chcount g) ++ oflat (f_roi_x g) ++ oflat (f_roi_y g)
   end.
 
+(* ------------------------------------------------------------------ *)
+(* cli/task_verify_dataset.py: exit status of dclab-verify-dataset      *)
+(* (the file exists).  Alerts are not modelled: their number is an input *)
+(* ------------------------------------------------------------------ *)
+(* exit_status = 4; try: check_dataset ... except BaseException: (stays 4)
+   else: if aler and viol: 3 elif aler: 1 elif viol: 2 else: 0 *)
+Definition exit_status (raised : bool) (nviol nalert : Z) : Z :=
+  if raised then 4
+  else if (0 <? nalert) && (0 <? nviol) then 3
+  else if 0 <? nalert then 1
+  else if 0 <? nviol then 2
+  else 0.
+
+Definition verify_exit (f : file) (nalert : Z) : Z :=
+  match violations f with
+  | None => exit_status true 0 nalert
+  | Some cs => exit_status false (Z.of_nat (length cs)) nalert
+  end.
+
 Definition case : Type :=
   (list (list Z) * list (list Z) * list (list Z) * list Z * list Z * list Z
    * list Z * list (list Z) * list (list Z) * list (list Z))%type.
@@ -698,3 +717,9 @@ Definition run_writer_flat (c : case) : list (list Z) :=
      | Some g => violations_flat g
      | None => []
      end.
+
+(* [[exit status; 0; 0]] followed by the violations; the second component is
+   the number of alerts reported by the implementation *)
+Definition run_flat_x (p : case * Z) : list (list Z) :=
+  let f := file_of_case (fst p) in
+  [verify_exit f (snd p); 0; 0] :: violations_flat f.
